@@ -112,6 +112,7 @@ func runC20(c *Ctx) {
 	xa := w.OpenXA()
 	xa.SetMaxOpenConns(8)
 	runC20PhaseTwoElsewhere(c, w, xa)
+	runC20FailedStarts(c, w, xa)
 	rng := NewRng(c.Seed)
 	rounds := c.Budget(3, 12)
 	for round := 0; round < rounds; round++ {
@@ -430,4 +431,53 @@ func runC20PhaseTwoElsewhere(c *Ctx, w *ATWorld, xa *sql.DB) {
 		xa.SetMaxIdleConns(2)
 		w.Eng.DropTable(table)
 	}
+}
+
+// runC20FailedStarts: "no connection is lost per transaction" when the branch of a transaction never starts (XA
+// START refused): the connection it was going to run on is given back, nothing is kept for a phase two that
+// will never come.
+func runC20FailedStarts(c *Ctx, w *ATWorld, xa *sql.DB) {
+	cid := "c20-failed-starts"
+	if !c.Want(cid) {
+		return
+	}
+	table := w.NewTableName("nostart")
+	w.Eng.CreateTable(memdb.TableDef{Name: table, Cols: []memdb.Column{{Name: "id", Type: memdb.TBigInt}, {Name: "n", Type: memdb.TBigInt, Nullable: true}}, PK: []string{"id"}})
+	w.Eng.InsertRows(table, memdb.Row{int64(1), int64(0)})
+	xa.SetMaxIdleConns(0)
+	time.Sleep(50 * time.Millisecond)
+	before := w.Eng.SessionCount()
+	const n = 6
+	failed := 0
+	crash := safeCall(func() {
+		for k := 0; k < n; k++ {
+			w.Eng.AddFault(memdb.Fault{Kind: "xa_start", Nth: 1})
+			InGlobalTx(fmt.Sprintf("%s-%d", cid, k), func(ctx context.Context) error {
+				sctx, cancel := context.WithTimeout(ctx, 5*time.Second)
+				defer cancel()
+				if _, e := xa.ExecContext(sctx, "UPDATE "+table+" SET n = 1 WHERE id = 1"); e != nil {
+					failed++
+				}
+				return errors.New("give up")
+			})
+			w.Eng.ClearFaults()
+		}
+	})
+	time.Sleep(100 * time.Millisecond)
+	after := w.Eng.SessionCount()
+	xa.SetMaxIdleConns(2)
+	c.Out.Case(cid, "C20", "skip", "skip")
+	class, detail := "", ""
+	switch {
+	case crash != "":
+		class, detail = "crash", crash
+	case failed < n:
+		class, detail = "setup", fmt.Sprintf("%d of %d statements failed at XA START", failed, n)
+	case after > before:
+		class, detail = "connection_leak", fmt.Sprintf("%d connections to the database before %d transactions whose XA START was refused, %d after (the pool keeps no idle connection)", before, n, after)
+	}
+	c.Out.Oracle(cid, class == "", class, fmt.Sprintf("%s | connections %d->%d", detail, before, after))
+	c.Out.Tag(cid, "nontrivial=1")
+	c.Out.Count("failed-starts")
+	w.Eng.DropTable(table)
 }
